@@ -353,6 +353,10 @@ def exec1(ctx, fams, flavours):
             avoid = {S['EXEC']} | ({K.vis_true[1]} if K.vis_true else set())
             if _avoid_path(K, some_t, S['NEXT'], avoid):
                 why.append('a yielded edge can be dropped without being offered to EXEC although its far endpoint may be unvisited')
+        # the callback that runs is the builder's: the receiver of exec() is a field of self (not a fresh / default Method)
+        recv = strip_payload(K.pv.of_operand(K.b['blocks'][S['EXEC']]['term']['args'][0]))
+        if not (isinstance(recv, tuple) and recv and recv[0] == 'f' and strip_payload(recv[1]) == ('param', 1)):
+            why.append('the callback receiver is %s, not the configured self.method' % pretty(recv))
         # at most once per yielded edge: no cycle through EXEC that avoids next()
         et = K.b['blocks'][S['EXEC']]['term']['target']
         if et >= 0 and _avoid_path(K, et, S['EXEC'], {S['NEXT']}):
